@@ -1314,3 +1314,103 @@ def r_exact_counts(prog: Program, col: Collector, refs: Refs, cat: Catalogue, ru
     if not n:
         col.unresolved("funsor.cnf::exact counts", "no rule that removes variables from the outer reduction of a counted contraction found", "funsor/cnf.py")
 
+
+
+# ---------------------------------------------------------------------- a commutative op's Python default is symmetric
+def _canon_sym(e: ast.AST, env: Dict[str, ast.AST], depth=0) -> str:
+    """canonical text of an expression modulo commutativity of +, *, two-argument max/min/maximum/minimum/logaddexp and |a - b|,
+    with single-definition locals inlined"""
+    if depth > 12:
+        return norm(e)
+    if isinstance(e, ast.Name) and e.id in env and e.id != "<resolve>":
+        return _canon_sym(env[e.id], env, depth + 1)
+    if isinstance(e, ast.BinOp) and isinstance(e.op, (ast.Add, ast.Mult)):
+        def parts(x):
+            if isinstance(x, ast.Name) and x.id in env:
+                x = env[x.id]
+            return parts(x.left) + parts(x.right) if isinstance(x, ast.BinOp) and type(x.op) is type(e.op) else [x]
+        sym = "+" if isinstance(e.op, ast.Add) else "*"
+        return "(" + sym.join(sorted(_canon_sym(p, env, depth + 1) for p in parts(e))) + ")"
+    if isinstance(e, ast.BinOp):
+        return f"({_canon_sym(e.left, env, depth + 1)} {type(e.op).__name__} {_canon_sym(e.right, env, depth + 1)})"
+    if isinstance(e, ast.UnaryOp):
+        return f"({type(e.op).__name__} {_canon_sym(e.operand, env, depth + 1)})"
+    if isinstance(e, ast.Call):
+        fn = e.func.attr if isinstance(e.func, ast.Attribute) else (e.func.id if isinstance(e.func, ast.Name) else norm(e.func))
+        resolver = env.get("<resolve>")
+        if resolver is not None and isinstance(e.func, (ast.Name, ast.Attribute)):
+            r = resolver(e.func)          # `_builtin_max = max` and the like
+            if r:
+                fn = r.rsplit(".", 1)[-1]
+        args = [_canon_sym(a, env, depth + 1) for a in e.args]
+        if fn in ("max", "min", "maximum", "minimum", "logaddexp", "fmax", "fmin") and len(args) == 2:
+            args = sorted(args)
+        if fn in ("abs", "fabs", "absolute") and len(e.args) == 1:
+            a = e.args[0]
+            if isinstance(a, ast.Name) and a.id in env:
+                a = env[a.id]
+            if isinstance(a, ast.BinOp) and isinstance(a.op, ast.Sub):
+                l, r = sorted([_canon_sym(a.left, env, depth + 1), _canon_sym(a.right, env, depth + 1)])
+                return f"abs({l} - {r})"
+        kws = sorted(f"{k.arg}={_canon_sym(k.value, env, depth + 1)}" for k in e.keywords)
+        return f"{fn}({', '.join(args + kws)})"
+    if isinstance(e, ast.IfExp):
+        return f"({_canon_sym(e.body, env, depth + 1)} if {_canon_sym(e.test, env, depth + 1)} else {_canon_sym(e.orelse, env, depth + 1)})"
+    if isinstance(e, ast.Compare):
+        return f"({_canon_sym(e.left, env, depth + 1)} {' '.join(type(o).__name__ for o in e.ops)} {' '.join(_canon_sym(c, env, depth + 1) for c in e.comparators)})"
+    return norm(e)
+
+
+class _Swap(ast.NodeTransformer):
+    def __init__(self, a, b):
+        self.a, self.b = a, b
+
+    def visit_Name(self, n):
+        if n.id == self.a:
+            return ast.copy_location(ast.Name(id=self.b, ctx=n.ctx), n)
+        if n.id == self.b:
+            return ast.copy_location(ast.Name(id=self.a, ctx=n.ctx), n)
+        return n
+
+
+def r_commutative_default_symmetric(prog: Program, col: Collector, refs: Refs, cat: Catalogue, rule: str):
+    """x op y == y op x for every op the tables treat as commutative.  For the ops implemented by a Python body (not an operator.* /
+    library function) the body with its two parameters exchanged must be the same expression modulo commutativity of the
+    functions it is built from - an asymmetric body (`shift + log1p(exp(y - x))`) is right for one operand order only."""
+    import copy
+    col.rule(rule, "the Python default of a commutative binary op is symmetric in its two operands", floor=1)
+    n = 0
+    for fq, op in sorted(cat.ops.items()):
+        if not isinstance(op.impl, ast.FunctionDef) or op.parent_is_op:
+            continue
+        ab = axioms.identify(cat, op)
+        if ab not in axioms.COMMUTATIVE:
+            continue
+        fn = op.impl
+        params = [a.arg for a in fn.args.args]
+        if len(params) != 2:
+            continue
+        rets = [s_ for s_ in ast.walk(fn) if isinstance(s_, ast.Return) and s_.value is not None]
+        if len(rets) != 1 or any(isinstance(s_, (ast.If, ast.For, ast.While, ast.Try)) for s_ in fn.body):
+            col.unresolved(f"{fq}::symmetric", "the body is not straight-line with one return", op.module.loc(fn))
+            continue
+        env = {}
+        multi = set()
+        for st in fn.body:
+            if isinstance(st, ast.Assign) and len(st.targets) == 1 and isinstance(st.targets[0], ast.Name):
+                if st.targets[0].id in env:
+                    multi.add(st.targets[0].id)
+                env[st.targets[0].id] = st.value
+        for m in multi:
+            env.pop(m, None)
+        n += 1
+        resolve = (lambda node, _m=op.module: cat._resolve_alias(_m, node))
+        env["<resolve>"] = resolve
+        a = _canon_sym(rets[0].value, env)
+        env2 = {k: _Swap(*params).visit(copy.deepcopy(v)) for k, v in env.items() if k != "<resolve>"}
+        env2["<resolve>"] = resolve
+        b = _canon_sym(_Swap(*params).visit(copy.deepcopy(rets[0].value)), env2)
+        col.check(a == b, f"{fq}::symmetric", f"the body is unchanged when `{params[0]}` and `{params[1]}` are exchanged (modulo commutativity of +, *, max/min, |a-b|)",
+                  f"`{op.var}` is treated as commutative ({ab}) but its Python implementation is not symmetric in `{params[0]}`, `{params[1]}`: "
+                  f"`{norm(rets[0].value)}` differs from the same expression with the operands exchanged - it is right for one operand order only", op.module.loc(fn))
+    col.cur.analysed["python_defaults_of_commutative_ops"] = n
